@@ -38,11 +38,20 @@ def run(ctx):
     fd = ba.calls(r"paths::find_do_file")
     forks = ba.calls(anchors.FORK_START)
     t_taint = taint(SS, src_place=lambda p: place_fields(p)[-1:] == ["builder::BuildJob.t"], mode="direct", through=re.compile(r"std::path::Path::new"))
-    ex = [(sw, t_t, f_t, cbb) for (sw, t_t, f_t, cbb) in ba.switches_on_call(r"std::path::Path::exists")
-          if z1 and ba.dominates(sw, z1[0]) and _arg_in(ba, SS.blocks[cbb]["term"]["args"][0], t_taint)]
+    ex_all = existence_tests(SS, t_taint)
+    ex = [(sw, t_t, f_t, kind) for (sw, t_t, f_t, kind) in ex_all if z1 and ba.dominates(sw, z1[0])]
+    if len(ex) > 1:
+        # several tests of the target's presence precede the build (the override detection asks too): the guard is the one
+        # whose exists-side goes on to the directory test
+        ex = [e for e in ex if any(ba.edge_dominates((e[0], e[1]), sw) for (sw, _, _, _) in ba.switches_on_call(r"std::path::Path::is_dir"))]
     if not ctx.ob("R11.1", "%s|guard-exists-test" % SS.key, len(ex) == 1, where=SS.span, detail="%d exists(t) tests dominate zap_deps1" % len(ex)):
         return
-    E, E_t, E_f, _ = ex[0]
+    E, E_t, E_f, E_kind = ex[0]
+    # ---- R11.10 (F-Y): a dangling symlink is a file the user made, too
+    ctx.rule("R11.10", "the existence test of the leave-alone guard does not follow symbolic links (lstat / symlink_metadata / the recorded-stamp reader), so that a user's dangling symlink counts as an existing file redo did not produce")
+    ctx.ob("R11.10", "%s|guard-existence-test-is-lstat" % SS.key, E_kind == "nofollow", where=ctx.where(SS, E),
+           detail="the guard tests the directory entry itself" if E_kind == "nofollow" else
+           "the guard asks whether the *referent* exists (Path::exists / metadata follow symbolic links): a dangling symlink made by the user, with a matching .do rule, is replaced by the build output")
     isdir = [(sw, t_t, f_t) for (sw, t_t, f_t, cbb) in ba.switches_on_call(r"std::path::Path::is_dir") if ba.edge_dominates((E, E_t), sw)]
     ovr = [(sw, t_t, f_t) for (sw, t_t, f_t) in common.field_switches(SS, "state::File.is_override") if ba.edge_dominates((E, E_t), sw) and ba.dominates(sw, z1[0]) is False or
            (ba.edge_dominates((E, E_t), sw) and any(ba.edge_dominates((d[0], d[2]), sw) for d in isdir))]
@@ -248,6 +257,61 @@ def run(ctx):
     reach = ctx.cg.reachable([ib.key], indirect=True)
     hit = {k for k in reach if k in prog.bodies and any(is_mutator_call(prog.bodies[k].blocks[i]["term"]) for i in BA.of(prog.bodies[k]).all_calls())}
     ctx.ob("R11.7", "positive-control|ifchange-reaches-record_new_state-mutators", R.key in hit and SS.key in hit, where=ib.span, detail="control query finds mutators in %d bodies" % len(hit))
+
+
+_FOLLOW = r"std::path::Path::(exists|is_file|metadata)|std::fs::metadata"
+_NOFOLLOW = r"std::path::Path::(symlink_metadata|is_symlink)|std::fs::symlink_metadata"
+
+
+def existence_tests(B, t_taint):
+    """[(switch_bb, exists_target, missing_target, 'follow'|'nofollow')]: the branches of body B that decide whether the
+    path in `t_taint` exists - `p.exists()` / `p.is_file()`, `p.metadata().is_ok()` (all follow symbolic links),
+    `p.symlink_metadata().is_ok()` / `is_err()` / a match on it (do not), `!stamp.is_missing()` on the stamp that
+    File::read_stamp (an lstat) returned."""
+    ba = BA.of(B)
+    out = []
+    for (sw, t_t, f_t, cbb) in ba.switches_on_call(r"std::path::Path::(exists|is_file|is_symlink)"):
+        t = B.blocks[cbb]["term"]
+        if _arg_in(ba, t["args"][0], t_taint):
+            out.append((sw, t_t, f_t, "nofollow" if call_matches(t, r"std::path::Path::is_symlink") else "follow"))
+
+    def stat_call_of(l):
+        """the stat-like call (block) whose result local l holds or borrows"""
+        sl, org, _ = backward_direct(B, l, depth=12)
+        for o in org:
+            if o[0] == "call" and (call_matches(o[2], _FOLLOW) or call_matches(o[2], _NOFOLLOW)) and o[2].get("args") and _arg_in(ba, o[2]["args"][0], t_taint):
+                return o[2]
+        return None
+    for (sw, t_t, f_t, cbb) in ba.switches_on_call(r"core::result::Result::(is_ok|is_err)|core::option::Option::(is_some|is_none)"):
+        t = B.blocks[cbb]["term"]
+        a = op_local(t["args"][0])
+        st = stat_call_of(a) if a is not None else None
+        if st is None:
+            continue
+        neg = call_matches(t, r"core::result::Result::is_err|core::option::Option::is_none")
+        out.append((sw, f_t if neg else t_t, t_t if neg else f_t, "nofollow" if call_matches(st, _NOFOLLOW) else "follow"))
+    for sw in sorted(ba.live):
+        es = ba.enum_switch(sw)
+        if not es or es[0]["p"]:
+            continue
+        st = stat_call_of(es[0]["l"])
+        if st is None:
+            continue
+        ty = B.locals[es[0]["l"]]
+        if not ty.startswith("core::result::Result<"):
+            continue
+        arms, other = es[1], es[2]
+        ok_t = arms.get(0, other)
+        err_t = arms.get(1, other)
+        if ok_t != err_t:
+            out.append((sw, ok_t, err_t, "nofollow" if call_matches(st, _NOFOLLOW) else "follow"))
+    for (sw, t_t, f_t, cbb) in ba.switches_on_call(r"state::Stamp::is_missing"):
+        t = B.blocks[cbb]["term"]
+        a = op_local(t["args"][0])
+        sl, org, _ = backward_direct(B, a, depth=12) if a is not None else (set(), [], None)
+        if any(o[0] == "call" and call_matches(o[2], r"state::File::read_stamp") for o in org):
+            out.append((sw, f_t, t_t, "nofollow"))
+    return out
 
 
 def _arg_in(ba, a, tset):
